@@ -51,6 +51,9 @@ def check(ctx):
         n += 1
         _enum_pair(ctx, ty)
     n += _misc_pairs(ctx)
+    from rules import extractors as _ex
+    _ex.check_extractors(ctx.under("R-1", "extractors"), "R-1")
+    _ex.check_to_cbor_array(ctx.under("R-1", "extractors"), "R-1")
     # the pairing from_cbor_bstr <-> cbor_bstr used by every array table is an inverse pair only because cbor_bstr hands
     # back the retained bytes of a decoded header untouched (shared with C02 R-3 / C11 R-3)
     from rules.c11 import check_cbor_bstr, check_is_empty
